@@ -7,9 +7,13 @@ of each Transformer operation / of the form filler is computed on the tree.
 JSON shapes (canonical, shrinkable):
   node   = ["e", [ns, loc], [[[ns, loc], val], ...], [node, ...]] | ["t", text] | ["c", text]
            | ["p", target, data]
+           | ["ns", prefix, uri] | ["ens", prefix] | ["d", name, pubid, sysid] | ["sc"] | ["ec"]
+             (START_NS / END_NS around an element, DOCTYPE, START_CDATA / END_CDATA around a text: leaves)
   event  = ["S", [ns, loc], attrs] | ["E", [ns, loc]] | ["T", text, safe] | ["C", text]
            | ["PI", target, data] | ["AT", [ns, loc], attrs] | ["BR"]
+           | ["NS", prefix, uri] | ["ENS", prefix] | ["DT", name, pubid, sysid] | ["SC"] | ["EC"]
   path   = {"alts": [{"lead": "" | "//" | ".//" | "." , "steps": [step...], "attr": null | name | "*"}]}
+           | {"text": xpath}      (a path of the shared grammar harness/gen_paths.py, as text)
   step   = {"sep": "/" | "//", "test": name | "*" | "text()" | "comment()" | "node()", "preds": [pred...]}
   pred   = ["has", a] | ["eq", a, v] | ["pos", n]
 """
@@ -52,7 +56,15 @@ def gen_kids(rng, depth, n, leafy=0.4, allow_ns=True, adjacent_text=False):
         k = gen_node(rng, depth, leafy, allow_ns)
         if not adjacent_text and kids and kids[-1][0] == 't' and k[0] == 't':
             continue
-        kids.append(k)
+        r = rng.random()
+        if allow_ns and k[0] == 'e' and (k[1][0] and r < 0.6 or r < 0.02):
+            # the namespace events the parser puts around an element that declares a namespace
+            pfx = rng.choice(['', 'n'])
+            kids.extend([['ns', pfx, k[1][0] or NS], k, ['ens', pfx]])
+        elif allow_ns and k[0] == 't' and len(k) == 2 and r < 0.06:
+            kids.extend([['sc'], k, ['ec']])              # a CDATA section
+        else:
+            kids.append(k)
     return kids
 
 
@@ -62,9 +74,26 @@ def gen_doc(rng, depth=3):
     if rng.random() < 0.3:
         root[2] = [[['', rng.choice(ATTRS)], rng.choice(VALS)]]
     doc = [root]
-    if rng.random() < 0.08:
+    r = rng.random()
+    if r < 0.08:
         doc.insert(0, ['c', 'prolog'])
+    elif r < 0.12:
+        doc.insert(0, ['d', 'html', rng.choice([None, '-//W3C//DTD XHTML 1.0 Strict//EN']),
+                       rng.choice([None, 'http://www.w3.org/TR/xhtml1/DTD/xhtml1-strict.dtd'])])
     return doc
+
+
+def doc_features(nodes, out=None):
+    """which event kinds beyond START/END/TEXT a forest has (for the distribution counters)"""
+    out = set() if out is None else out
+    for n in nodes:
+        if n[0] == 'e':
+            if n[1][0]:
+                out.add('ns-element')
+            doc_features(n[3], out)
+        elif n[0] in ('c', 'p', 'ns', 'd', 'sc'):
+            out.add({'c': 'comment', 'p': 'pi', 'ns': 'start-ns', 'd': 'doctype', 'sc': 'cdata'}[n[0]])
+    return out
 
 
 def flatten(nodes, out=None):
@@ -83,8 +112,33 @@ def flatten(nodes, out=None):
             out.append(['C', n[1]])
         elif k == 'p':
             out.append(['PI', n[1], n[2]])
+        elif k == 'ns':
+            out.append(['NS', n[1], n[2]])
+        elif k == 'ens':
+            out.append(['ENS', n[1]])
+        elif k == 'd':
+            out.append(['DT', n[1], n[2], n[3]])
+        elif k == 'sc':
+            out.append(['SC'])
+        elif k == 'ec':
+            out.append(['EC'])
         else:
             raise ValueError(n)
+    return out
+
+
+def flatten_ids(nodes, pre=(), out=None):
+    """forest -> [(JSON event, node id, 'S' | 'E' | 'L')] (node ids: tuples of child indexes)"""
+    if out is None:
+        out = []
+    for i, n in enumerate(nodes):
+        nid = pre + (i,)
+        if n[0] == 'e':
+            out.append((['S', list(n[1]), [[list(a), v] for a, v in n[2]]], nid, 'S'))
+            flatten_ids(n[3], nid, out)
+            out.append((['E', list(n[1])], nid, 'E'))
+        else:
+            out.append((flatten([n])[0], nid, 'L'))
     return out
 
 
@@ -120,6 +174,16 @@ def to_tree(events):
             stack[-1][1].append(['c', e[1]])
         elif k == 'PI':
             stack[-1][1].append(['p', e[1], e[2]])
+        elif k == 'NS':
+            stack[-1][1].append(['ns', e[1], e[2]])
+        elif k == 'ENS':
+            stack[-1][1].append(['ens', e[1]])
+        elif k == 'DT':
+            stack[-1][1].append(['d', e[1], e[2], e[3]])
+        elif k == 'SC':
+            stack[-1][1].append(['sc'])
+        elif k == 'EC':
+            stack[-1][1].append(['ec'])
         else:
             stack[-1][1].append(['o', e])
     if len(stack) != 1:
@@ -160,7 +224,8 @@ def jq(name):
 
 
 def to_genshi(events):
-    from genshi.core import START, END, TEXT, COMMENT, PI, Attrs, Markup
+    from genshi.core import START, END, TEXT, COMMENT, PI, Attrs, Markup, START_NS, END_NS, DOCTYPE, \
+        START_CDATA, END_CDATA
     out = []
     pos = (None, -1, -1)
     for e in events:
@@ -175,13 +240,23 @@ def to_genshi(events):
             out.append((COMMENT, e[1], pos))
         elif k == 'PI':
             out.append((PI, (e[1], e[2]), pos))
+        elif k == 'NS':
+            out.append((START_NS, (e[1], e[2]), pos))
+        elif k == 'ENS':
+            out.append((END_NS, e[1], pos))
+        elif k == 'DT':
+            out.append((DOCTYPE, (e[1], e[2], e[3]), pos))
+        elif k == 'SC':
+            out.append((START_CDATA, None, pos))
+        elif k == 'EC':
+            out.append((END_CDATA, None, pos))
         else:
             raise ValueError(e)
     return out
 
 
 def from_genshi_event(ev):
-    from genshi.core import START, END, TEXT, COMMENT, PI, Markup
+    from genshi.core import START, END, TEXT, COMMENT, PI, Markup, START_NS, END_NS, DOCTYPE, START_CDATA, END_CDATA
     from genshi.filters.transform import ATTR, BREAK
     kind, data = ev[0], ev[1]
     if kind is START:
@@ -198,6 +273,16 @@ def from_genshi_event(ev):
         return ['AT', jq(data[0]), [[jq(a), str(v)] for a, v in data[1]]]
     if kind is BREAK:
         return ['BR']
+    if kind is START_NS:
+        return ['NS', str(data[0]), str(data[1])]
+    if kind is END_NS:
+        return ['ENS', str(data)]
+    if kind is DOCTYPE:
+        return ['DT', str(data[0]), None if data[1] is None else str(data[1]), None if data[2] is None else str(data[2])]
+    if kind is START_CDATA:
+        return ['SC']
+    if kind is END_CDATA:
+        return ['EC']
     if str(kind) == 'EMPTY':
         return ['M', jq(data[0]), [[jq(a), str(v)] for a, v in data[1]]]
     return ['O', str(kind), repr(data)[:80]]
@@ -259,9 +344,63 @@ def gen_alt(rng, allow_attr=True):
     return {'lead': lead, 'steps': steps, 'attr': attr}
 
 
+# the shared path grammar (harness/gen_paths.py), restricted to what a Transformer can be given:
+# SelectTransformation calls Path.test() with empty namespace and variable maps
+def _shared_profile():
+    from harness import gen_paths as GP
+    return dict(GP.STRUCT, ns=False, kinds=('name', 'name', 'name', '*', 'text', 'comment', 'node', 'pi'))
+
+
+def to_shared_doc(nodes):
+    """our forest -> the tree shape of harness/gen_paths.py (first element; other event kinds dropped)"""
+    def conv(n):
+        if n[0] == 'e':
+            return {'e': [n[1][0], n[1][1]], 'a': [[a[0], a[1], v] for a, v in n[2]],
+                    'k': [c for c in (conv(k) for k in n[3]) if c is not None]}
+        if n[0] == 't':
+            return {'t': n[1]}
+        if n[0] == 'c':
+            return {'c': n[1]}
+        if n[0] == 'p':
+            return {'p': [n[1], n[2]]}
+        return None
+    for n in nodes:
+        if n[0] == 'e':
+            return conv(n)
+    return None
+
+
+def text_path_ok(t):
+    """no variable reference, no namespace prefix (a single colon), parses by the independent reader"""
+    import re as _re
+    from harness import xpath_ref
+    if '$' in t or _re.search(r'(?<!:):(?!:)', t):
+        return False
+    try:
+        xpath_ref.parse(t)
+    except Exception:      # Outside / Garbage
+        return False
+    return True
+
+
+def gen_text_path(rng, doc):
+    from harness import gen_paths as GP
+    prof = _shared_profile()
+    sd = to_shared_doc(doc)
+    for _ in range(12):
+        t = GP.rand_path_for(rng, sd, prof) if sd is not None and rng.random() < 0.75 else GP.rand_path(rng, prof)
+        if text_path_ok(t):
+            return {'text': t}
+    return None
+
+
 def gen_path_for(rng, doc):
     """a path aimed at a node that exists in the document (so that selections are not
-    mostly empty), or a random one"""
+    mostly empty), or a random one; a third of them from the shared grammar harness/gen_paths.py"""
+    if rng.random() < 0.35:
+        p = gen_text_path(rng, doc)
+        if p is not None:
+            return p
     if rng.random() < 0.25:
         return gen_path(rng)
     ix = Index(doc)
@@ -325,6 +464,8 @@ def aimed_alt(rng, ix, nid):
 
 
 def path_str(p):
+    if 'text' in p:
+        return p['text']
     alts = []
     for alt in p['alts']:
         if alt['lead'] == '.' and not alt['steps']:
@@ -349,6 +490,8 @@ def path_str(p):
 
 
 def positional(p):
+    if 'text' in p:
+        return True
     return any(pr[0] == 'pos' for alt in p['alts'] for st in alt['steps'] for pr in st['preds'])
 
 
@@ -449,6 +592,45 @@ def eval_alt(ix, ctx, alt):
     return cur
 
 
+def selection_from_marks(doc, marked):
+    """the selection a select-only transformer made, read off its marked output stream:
+    -> (selected node ids (outermost only), {element id: [attr names]}) or None when the marked stream
+    is not the document's event stream (then select-only is not the identity: another clause fails)"""
+    flat = flatten_ids(doc)
+    sel, attrs = set(), {}
+    i = 0
+    pending = None
+    for mark, ev in marked:
+        if ev[0] == 'AT':
+            pending = [list(a) for a, _ in ev[2]]
+            continue
+        if ev[0] == 'BR':
+            continue
+        if i >= len(flat) or flat[i][0] != ev:
+            return None
+        _, nid, kind = flat[i]
+        i += 1
+        if pending is not None:
+            if kind != 'S':
+                return None
+            attrs[nid] = pending
+            pending = None
+        if mark == 'ENTER' and kind == 'S':
+            sel.add(nid)
+        elif mark == 'OUTSIDE' and kind == 'L':
+            sel.add(nid)
+        elif mark in ('ENTER', 'OUTSIDE', 'EXIT') and not (mark == 'EXIT' and kind == 'E'):
+            return None
+    if i != len(flat):
+        return None
+    return sel, attrs
+
+
+def plain_doc(nodes):
+    """only elements, text, comments, PIs (the node kinds the tree evaluator below knows)"""
+    return all(n[0] in ('t', 'c', 'p') or (n[0] == 'e' and plain_doc(n[3])) for n in nodes)
+
+
 def evaluate(doc, p):
     """-> (selected node ids (outermost only), {element id: [attr names]})"""
     ix = Index(doc)
@@ -505,6 +687,18 @@ def attrs_set(attrs, name, value):
     if any(a == name for a, _ in attrs):
         return [[a, (value if a == name else v)] for a, v in attrs]
     return attrs + [[name, value]]
+
+
+def map_text(n, how):
+    """the node with every text in it mapped (the result of the function is a plain string for `rev`,
+    keeps its type for `dup`)"""
+    if n[0] == 't':
+        if how == 'rev':
+            return ['t', n[1][::-1]]
+        return ['t', n[1] + n[1]] + n[2:]
+    if n[0] == 'e':
+        return ['e', n[1], n[2], [map_text(k, how) for k in n[3]]]
+    return n
 
 
 def spec_apply(doc, sel, selattrs, op):
@@ -564,8 +758,10 @@ def spec_apply(doc, sel, selattrs, op):
         elif name == 'empty':
             out.append(['S', n[1], n[2]])
             out.append(['E', n[1]])
-        elif name in ('copy', 'select'):
+        elif name in ('copy', 'select', 'trace'):
             emit_nodes([n])
+        elif name == 'maptext':
+            emit_nodes([map_text(n, op[1])])
         else:
             raise ValueError(name)
 
@@ -588,6 +784,8 @@ def spec_apply(doc, sel, selattrs, op):
                 emit_nodes(op[3])
             emit_nodes(nodes)
             out.append(['E', w])
+        elif name == 'maptext':
+            emit_nodes([map_text(k, op[1]) for k in nodes])
         else:
             emit_nodes(nodes)      # element-only operations leave text/comment selections alone
 
@@ -678,10 +876,23 @@ def gen_op(rng, bufs, doc=None):
         return ['substitute', rng.choice(['t', 'some', 'x']), rng.choice(['Q', '']), rng.choice([0, 1])]
     if r < 0.89:
         return ['filter', rng.choice(['id', 'dropc'])]
+    if r < 0.91:
+        return ['maptext', rng.choice(['rev', 'dup'])]
+    if r < 0.925:
+        return ['trace']
     return [rng.choice(SIMPLE)]
 
 
 def has_attr(path):
+    if 'text' in path:
+        import re as _re
+        t = path['text']
+        while True:                                   # drop the predicates
+            t2 = _re.sub(r'\[[^\[\]]*\]', '', t)
+            if t2 == t:
+                break
+            t = t2
+        return '@' in t or 'attribute::' in t
     return any(a.get('attr') for a in path['alts'])
 
 
@@ -728,6 +939,122 @@ def gen_chain(rng, maxlen=4, doc=None, wild=False):
             written_live.add(op[1])
         ops.append(op)
     return ops
+
+
+def gen_tree_case(rng):
+    """derivations from shared prefixes: t0 = Transformer(path); every further transformer is derived
+    from an EARLIER one (not only the latest) by one operation; then some of them are applied, some
+    twice, in any order.  Every operation method returns a new transformer and leaves its origin alone."""
+    doc = gen_doc(rng, rng.choice([1, 2, 2]))
+    root = gen_path_for(rng, doc)
+    chains = [[['select', root]]]
+    derive = []
+    n = rng.choice([1, 2, 2, 3, 3, 4, 5])
+    for _ in range(n):
+        # prefer branching: an origin that already has a descendant
+        parent = rng.randrange(len(chains)) if rng.random() < 0.7 else 0
+        attr_seen = any(o[0] == 'select' and has_attr(o[1]) for o in chains[parent])
+        for _try in range(30):
+            op = gen_op(rng, 2, doc)
+            if op[0] == 'buffer':
+                continue
+            if op[0] == 'select' and has_attr(op[1]):
+                continue
+            if attr_seen and op[0] in ZERO_WIDTH:
+                continue
+            if op[0] in ('copy', 'cut') and any(o[0] in ('copy', 'cut') and o[1] == op[1] for o in chains[parent]):
+                continue                 # one writer per buffer and chain (C20-buffer-two-writers)
+            break
+        else:
+            op = ['remove']
+        if op[0] in ('copy', 'cut'):
+            op = [op[0], len(chains), op[2]]         # a buffer of its own per derived transformer
+        derive.append([parent, op])
+        chains.append(chains[parent] + [op])
+    apply = [rng.randrange(len(chains)) for _ in range(rng.choice([2, 3, 4]))]
+    if 0 not in apply:
+        apply.append(0)                   # the shared origin is used again after the derivations
+    return {'kind': 'tree', 'doc': doc, 'root': root, 'derive': derive, 'apply': apply}
+
+
+def tree_chains(case):
+    chains = [[['select', case['root']]]]
+    for parent, op in case['derive']:
+        chains.append(chains[parent] + [op])
+    return chains
+
+
+def tree_shape(case):
+    """parents of the derived transformers, e.g. 0,0,1: two children of the root, one grandchild"""
+    return ','.join(str(p) for p, _ in case['derive'])
+
+
+def chain_in_domain(ops):
+    """the hypotheses the chain generator keeps (mirror of gen_chain): no zero-width operation once an
+    attribute selection is in the stream (C20-attr-structural); between two buffer() barriers a buffer has
+    one writer and is not written after an injector read it (C20-buffer-feedback / -two-writers)"""
+    attr_seen = False
+    read_live, written_live = set(), set()
+    for op in ops:
+        if op[0] == 'select' and has_attr(op[1]):
+            attr_seen = True
+        elif attr_seen and op[0] in ZERO_WIDTH:
+            return False
+        if op[0] == 'buffer':
+            read_live, written_live = set(), set()
+        if op[0] in INJECT and op[1][0] == 'buf':
+            read_live.add(op[1][1])
+        if op[0] in ('copy', 'cut'):
+            if op[1] in read_live or op[1] in written_live:
+                return False
+            written_live.add(op[1])
+    return True
+
+
+def form_in_domain(case):
+    """the hypotheses the form generator keeps: option and textarea elements hold text only, no form in a
+    form, no select in a select (C20-option-children, C20-nested-controls), no None / empty list for the
+    name of a textarea (C20-textarea-none)"""
+    data = dict((k, v) for k, v in case['data'])
+
+    def ok(nodes, in_form, in_select):
+        for n in nodes:
+            if n[0] != 'e':
+                continue
+            tag = n[1][1]
+            if tag == 'form' and in_form:
+                return False
+            if tag == 'select' and in_select:
+                return False
+            if tag in ('option', 'textarea') and any(k[0] != 't' for k in n[3]):
+                return False
+            if tag == 'textarea':
+                for a, v in n[2]:
+                    if a == ['', 'name'] and v in data and (data[v] is None or data[v] == []):
+                        return False
+            if not ok(n[3], in_form or tag == 'form', in_select or tag == 'select'):
+                return False
+        return True
+    return ok(case['doc'], False, False)
+
+
+def stagewise(ops):
+    """mirror of `Genshi.Tf.stagewise` (Model/TfLazy.lean): between two buffer() barriers no buffer is
+    written twice, or read by an injector and written -- the chains for which the stage-wise model is exact"""
+    w, r = set(), set()
+    for op in ops:
+        n = op[0]
+        if n == 'buffer':
+            w, r = set(), set()
+        elif n in ('copy', 'cut'):
+            if op[1] in w or op[1] in r:
+                return False
+            w.add(op[1])
+        elif n in INJECT and op[1][0] == 'buf':
+            if op[1][1] in w:
+                return False
+            r.add(op[1][1])
+    return True
 
 
 def admissible(ops):
